@@ -352,10 +352,12 @@ namespace TV.ProtoLMC
 
 /-- **C03_manifest_completes_multiconn.** In every reachable state of the multi-connection abstraction that is not final some step
 is enabled, every step strictly decreases `measure`, and `End` is received only after every file was confirmed with nothing left
-to receive - for any number of connections, streams, files and chunks, and any interleaving of the per-connection stream
-visibility with the receiver's accepts. -/
-theorem C03_manifest_completes_multiconn {k n c : Nat} {chunks : Nat → Nat} (hn : 0 < n) (hc : 0 < c) {s : St}
-    (h : Reachable k n c chunks s) :
+to receive - for any number of connections, streams, files and chunks, any number of additional chunks per file that travel
+although the receiver does not wait for them (resume: marked chunks at or above `forceSendFrom`, the verification re-send; they may
+arrive after their file was finalised and are then drained), and any interleaving of the per-connection stream visibility with the
+receiver's accepts. -/
+theorem C03_manifest_completes_multiconn {k n c : Nat} {chunks extra : Nat → Nat} (hn : 0 < n) (hc : 0 < c) {s : St}
+    (h : Reachable k n c chunks extra s) :
     (s.endAllRecv = false → ∃ a s', step s a = some s') ∧
     (∀ a s', step s a = some s' → measure s' < measure s) ∧
     (s.endAllRecv = true → ∀ f, f < s.k → s.doneRecv f = true ∧ s.remaining f = 0) := by
@@ -370,7 +372,7 @@ def run (s : St) : List Step → Option St
   | a :: as => match step s a with | some s' => run s' as | none => none
 
 /-- a run can never be longer than the measure of the state it starts from -/
-theorem run_length_le_multiconn {k n c : Nat} {chunks : Nat → Nat} (hn : 0 < n) (hc : 0 < c) {s s' : St} (h : Reachable k n c chunks s)
+theorem run_length_le_multiconn {k n c : Nat} {chunks extra : Nat → Nat} (hn : 0 < n) (hc : 0 < c) {s s' : St} (h : Reachable k n c chunks extra s)
     (as : List Step) (hr : run s as = some s') : as.length + measure s' ≤ measure s := by
   induction as generalizing s with
   | nil => simp only [run, Option.some.injEq] at hr; subst hr; simp
@@ -386,21 +388,21 @@ theorem run_length_le_multiconn {k n c : Nat} {chunks : Nat → Nat} (hn : 0 < n
 
 /-- a frame is never in flight on a stream the sender does not have, and the receiver never takes more streams from a connection
 than the sender opened on it -/
-theorem C03_multiconn_streams_bounded {k n c : Nat} {chunks : Nat → Nat} (hn : 0 < n) (hc : 0 < c) {s : St}
-    (h : Reachable k n c chunks s) (j : Nat) (hj : j < s.c) : s.accepted j ≤ cnt s.n s.c j := by
+theorem C03_multiconn_streams_bounded {k n c : Nat} {chunks extra : Nat → Nat} (hn : 0 < n) (hc : 0 < c) {s : St}
+    (h : Reachable k n c chunks extra s) (j : Nat) (hj : j < s.c) : s.accepted j ≤ cnt s.n s.c j := by
   have := (reachable_inv hn hc h).acc j hj
   omega
 
 -- non-vacuity: two files (1 and 2 chunks), three data streams over two connections (streams 1 and 3 on connection 1, stream 2
 -- next to the control stream on connection 0); a frame on stream 3 reveals stream 1 too
-example : ((run (init 2 3 2 (fun f => f + 1))
+example : ((run (init 2 3 2 (fun f => f + 1) (fun _ => 0))
     [.dispatch 1 3, .dispatch 0 2, .accept 1, .accept 0, .readFrame 2 0, .dispatch 1 1, .sendEnd 0, .sendEnd 1, .recvEnd 0, .recvDone 0,
      .accept 1, .readFrame 3 1, .readFrame 1 1, .recvEnd 1, .recvDone 1, .sendEndAll, .recvEndAll]).map (·.endAllRecv)) = some true := by
   decide
 -- a frame on stream 3 (second stream of connection 1) cannot be read after a single accept on that connection
-example : ((run (init 2 3 2 (fun f => f + 1)) [.dispatch 1 3, .accept 1, .readFrame 3 1]).map (·.endAllRecv)) = none := by decide
+example : ((run (init 2 3 2 (fun f => f + 1) (fun _ => 0)) [.dispatch 1 3, .accept 1, .readFrame 3 1]).map (·.endAllRecv)) = none := by decide
 -- and nothing is revealed on connection 0 beyond the control stream by traffic on connection 1
-example : ((run (init 2 3 2 (fun f => f + 1)) [.dispatch 1 3, .accept 0]).map (·.endAllRecv)) = none := by decide
+example : ((run (init 2 3 2 (fun f => f + 1) (fun _ => 0)) [.dispatch 1 3, .accept 0]).map (·.endAllRecv)) = none := by decide
 
 open TV.Gen.Shapes in
 /-- the source `Model/ProtoLMC` was transcribed from: `multiConn.OpenStream` places streams round-robin over the connections in the
@@ -412,6 +414,14 @@ theorem C03_source_multiconn :
     multiconn_accept_ifs = ["atomic.CompareAndSwapUint32(&m.control, 0, 1)", "atomic.CompareAndSwapUint32(&m.control, 0, 1) ; err != nil",
       "atomic.CompareAndSwapUint32(&m.control, 0, 1) ; err != nil", "res.err != nil", "err != nil"] ∧
     multiconn_accept_control = ["ctx"] ∧ multiconn_loop_accept = ["context.Background()"] ∧ multiconn_loops = ["idx, conn"] := by decide
+
+-- resume: file 0 has one chunk the receiver waits for and two it already has; one of those arrives only after the file was finalised
+example : ((run (init 1 2 1 (fun _ => 1) (fun _ => 2))
+    [.dispatchU 0 2, .dispatch 0 1, .dispatchU 0 1, .accept 0, .accept 0, .readFrame 1 0, .readFrameU 1 0, .sendEnd 0, .recvEnd 0, .recvDone 0,
+     .readFrameU 2 0, .sendEndAll, .recvEndAll]).map (fun s => (s.endAllRecv, s.doneSent 0))) = some (true, true) := by
+  decide
+-- FileEnd is not sent while such a chunk is still to be handed out
+example : ((run (init 1 2 1 (fun _ => 1) (fun _ => 1)) [.dispatch 0 1, .sendEnd 0]).map (·.endAllRecv)) = none := by decide
 
 end TV.ProtoLMC
 
